@@ -12,7 +12,7 @@
 From Coq Require Import List NArith Bool Lia ZifyN ZifyNat ZifyBool.
 From VLib Require Import Chunks ChunksProofs.
 From VMem Require Import StorageAccessor StorageAccessorProofs.
-From VDrv Require Import MemCopy MemCopyProofs.
+From VDrv Require Import MemCopy MemCopyProofs FlushHist FlushHistProofs.
 From VCp Require Import Dma DmaProofs CpRelay.
 Import ListNotations.
 Open Scope N_scope.
@@ -166,6 +166,46 @@ Theorem need_flushing_exact : forall bufs a n, 0 < n -> Forall (fun b => 0 < b_s
    exists b x, In b bufs /\ b_dirty b = true /\ b_start b <= x < b_start b + b_size b /\ a <= x < a + n).
 Proof. exact need_flushing_iff. Qed.
 Print Assumptions need_flushing_exact.
+
+(** * The flush decision over histories of a context
+
+    Events: allocations, kernels taken from any queue of the context (every
+    buffer existing then may be written until the kernel completes), kernel
+    completions, copies taken from any queue — in every interleaving.  Ghost:
+    [g_need] lists the buffers written by kernels that completed after the last
+    flush was issued.  Whenever a copy range shares a byte with such a buffer
+    the code's decision is "flush": no required flush is skipped. *)
+Theorem needs_flush_sound : forall bufs0 evs a n,
+  let s := hrun (hinit bufs0) evs in
+  0 < n -> must_flush s a n ->
+  need_flushing (h_bufs s) a n = true /\ snd (hstep s (HCopy a n)) = true.
+Proof.
+  intros bufs0 evs a n s Hn Hm.
+  assert (E : need_flushing (h_bufs s) a n = true)
+    by (apply inv_flushes; auto; apply hrun_inv, hinit_inv).
+  split; [exact E|]. cbn. rewrite E. reflexivity.
+Qed.
+Print Assumptions needs_flush_sound.
+
+(** The same statement fails for the variant that resets the marks whenever a
+    flush is sent: kernel on queue 1 in flight, a copy of another buffer flushes
+    and clears, the kernel completes, the copy of its output does not flush. *)
+Definition hist_two_queues : list hev := [HLaunch 1; HCopy 8192 64; HComplete 1].
+Theorem needs_flush_sound_refuted_if_flush_clears_marks :
+  let s := hrun_gen true (hinit [mkBuf 4096 100 false; mkBuf 8192 100 false]) hist_two_queues in
+  must_flush s 4096 16 /\ snd (hstep_gen true s (HCopy 4096 16)) = false.
+Proof.
+  split; [|reflexivity].
+  exists 2%nat, 0%nat, (mkBuf 4096 100 false). cbn.
+  split; [auto|]. split; [lia|]. split; [reflexivity|]. split; [reflexivity|]. exists 4096. lia.
+Qed.
+Print Assumptions needs_flush_sound_refuted_if_flush_clears_marks.
+
+(** Non-vacuity: on the same history the code as it is owes a flush and sends it. *)
+Example demo_hist :
+  let s := hrun (hinit [mkBuf 4096 100 false; mkBuf 8192 100 false]) hist_two_queues in
+  g_need s = [2%nat] /\ snd (hstep s (HCopy 4096 16)) = true /\ snd (hstep s (HCopy 20000 16)) = false.
+Proof. vm_compute. repeat split; reflexivity. Qed.
 
 (** * The DMA engine: one completion per command, after all its sub-requests *)
 
